@@ -18,6 +18,11 @@ PREFIX = ('nilsimsa.seq',)
 ID = 'C14'
 LEAN_PROOFS = ['Proofs.C14_Nilsimsa']
 GEN_ITEMS = ['Lsh']
+RULE = ('`nilsimsa.seq`: every single and double byte cut of short inputs, bytewise feeding, empty pieces, sampled cuts of long inputs; '
+        '`nilsimsa.seqs <targets> | <k> new|u|d|r|c`: ONE object reused for several messages in a row (digest() between them, reset() after an '
+        'abandoned stream, __call__ in between), every byte cut of the second message after first messages of 0..5 and 40 bytes, bytewise '
+        'on a reused object, two and three objects (same / different target) interleaved; every digest compared with the reference digest '
+        'of the bytes fed to that object since its last new / digest / reset / call')
 TRUSTED = ['Nilsimsa part: the scan loop of maketran is modelled with a fuel bound (256*257 iterations) that the real loop '
            'never reached for any target 0..255 (C19 correspondence stream, op nilsimsa.tran)']
 ASSUMPTIONS = ['Nilsimsa part: inputs are bytes objects (str input, `map(ord,…)`, is a Python-2 leftover and not modelled)']
